@@ -96,7 +96,10 @@ Theorem C06_source_iterator_methods :
   methods_of "Iterator for GenericArrayIter<T,N>" = Some ["next"; "fold"; "size_hint"; "count"; "nth"; "last"] /\
   methods_of "DoubleEndedIterator for GenericArrayIter<T,N>" = Some ["next_back"; "rfold"; "nth_back"] /\
   methods_of "ExactSizeIterator for GenericArrayIter<T,N>" = Some ["len"] /\
-  methods_of "FusedIterator for GenericArrayIter<T,N>" = Some [].
+  methods_of "FusedIterator for GenericArrayIter<T,N>" = Some [] /\
+  methods_of "Clone for GenericArrayIter<T,N>" = Some ["clone"] /\
+  methods_of "Drop for GenericArrayIter<T,N>" = Some ["drop"] /\
+  methods_of "IntoIterator for GenericArray<T,N>" = Some ["into_iter"].
 Proof. repeat split. Qed.
 
 
